@@ -29,13 +29,18 @@ def one(d):
         os.makedirs(tmpv + "/evidence")
         shutil.copy("/verif/known-findings.txt", tmpv)
         rc, out = sh("/verif/bin/verifcheck -prop all -repo %s -verif %s" % (wt, tmpv))
+        # a property's block ends with its SUMMARY line; rules shared between properties keep
+        # the id of their home property, so lines are attributed by block, not by rule id
         fired = {}
+        block = []
         for l in out.splitlines():
             if l.startswith("FAIL") or l.startswith("UNDECIDED"):
-                parts = l.split()
-                rule = parts[1]
-                prop = rule.split(".")[0]
-                fired.setdefault(prop, []).append(l[:500])
+                block.append(l[:500])
+            elif l.startswith("SUMMARY property="):
+                prop = l.split("=", 1)[1].split()[0]
+                if block:
+                    fired.setdefault(prop, []).extend(block)
+                block = []
         shutil.rmtree(tmpv, ignore_errors=True)
         own = meta["property"]
         meta["detection"] = {
